@@ -48,6 +48,14 @@ func runC03(e *core.Env) {
 			d = gen.Document(r, gen.Opts{MaxRecs: 7, MinRecs: 1, MaxEntries: 4, Near: &today, NearSpread: r.PickInt(1, 2, 4), Sorted: r.Chance(2, 3), Hostile: true, OpenRanges: 1, Tags: 1,
 				Unicode: r.Chance(1, 3), LookAlikes: true, TrailingBlank: true, MaxHours: 12})
 			text = d.Text
+			switch r.Intn(5) {
+			case 0: // bytes that are not valid UTF-8 inside summaries (Latin-1 files etc.): such files parse, every byte must survive
+				if t2, ok := c08Decorate(r, d); ok {
+					text = t2
+				}
+			case 1: // a tab instead of the space between an entry's value and its summary
+				text = c03Tabify(r, d)
+			}
 		}
 		file := e.Dir + "/c03.klg"
 		model := d.Doc
@@ -275,4 +283,24 @@ func plus1(xs []int) []int {
 		out[i] = x + 1
 	}
 	return out
+}
+
+// c03Tabify replaces the blank between value and summary by a tab on some entry lines (klog accepts that).
+func c03Tabify(r *core.Rand, d *gen.Out) string {
+	ls := ref.SplitLines(d.Text)
+	if len(ls) != len(d.Lines) {
+		return d.Text
+	}
+	var sb strings.Builder
+	for i, l := range ls {
+		t := l.Text
+		if li := d.Lines[i]; li.Kind == gen.LEntry && r.Chance(1, 2) {
+			sm := d.Doc.Recs[li.Rec].Entries[li.Ent].Summary[0]
+			if sm != "" && len(t) > len(sm)+1 && t[len(t)-len(sm)-1] == ' ' {
+				t = t[:len(t)-len(sm)-1] + "\t" + sm
+			}
+		}
+		sb.WriteString(t + l.Ending)
+	}
+	return sb.String()
 }
